@@ -69,7 +69,7 @@ open V.EventParse V.EventAccessors V.AccProofs
     URL-safe base64 characters, is a valid room ID after the sigil swap; the redaction computed at construction, the
     canonical-JSON check of the input and its struct decoding dominate the four sites of `Redact()`; the regenerated
     table dominates the function-valued `ParsePowerLevels`.
-    Hypothesis: the hash returns 32 bytes (SHA-256).  `Sign` is NOT in this list: see `no_panic_sign` / `sign_panics`. -/
+    Hypothesis: the hash returns 32 bytes (SHA-256).  `Sign` is the subject of `no_panic_sign`. -/
 theorem no_panic_accessors (H : Bytes → Bytes) (hH : Len32 H) {ver text : Bytes} {e : PDU}
     (h : parseUntrusted H ver text = .ok e) :
     ∀ a : Acc, a.isSign = false → ∀ site, run H a e ≠ .error (.panic site) := by
@@ -106,29 +106,29 @@ theorem no_panic_accessors (H : Bytes → Bytes) (hH : Len32 H) {ver text : Byte
   | redact => exact redact_np h I site
   | sign n k s => cases ha
 
-/-- **`Sign()` reaches none of its panic sites on an accepted event whose `signatures` member decodes** (absent, `null`, or
-    an object of objects of base64 strings — what `SignJSON` needs to add a signature; `sigsDecodable`).  Without that
-    hypothesis the statement is false: `sign_panics`. -/
-theorem no_panic_sign (H : Bytes → Bytes) {ver text : Bytes} {e : PDU} (h : parseUntrusted H ver text = .ok e)
-    (hs : sigsDecodable e = true) : ∀ name kid sig site, run H (.sign name kid sig) e ≠ .error (.panic site) := by
+/-- **`Sign()` reaches none of its panic sites on an event `NewEventFromUntrustedJSON` returned** — no hypothesis on the
+    `signatures` member: `Sign()` leaves out a member `SignJSON` cannot decode (`signableEventJSON`), the text of an
+    accepted event repeats no member name (so the member handed on is the one that was examined), and the redaction
+    keeps `signatures` verbatim.  Before the repair the statement needed `sigsDecodable e` and was false without it
+    (`"signatures":5`, `{"a":1}`, `{"a":{"k":"!!"}}`: `corpus/C18/fuzz.ops`). -/
+theorem no_panic_sign (H : Bytes → Bytes) {ver text : Bytes} {e : PDU} (h : parseUntrusted H ver text = .ok e) :
+    ∀ name kid sig site, run H (.sign name kid sig) e ≠ .error (.panic site) := by
   obtain ⟨row, I⟩ := inv_of_accepted h
   intro name kid sig site
-  exact sign_np h I hs name kid sig site
+  exact sign_np h I name kid sig site
 
 /-- **Events from trusted JSON** (`NewEventFromTrustedJSON`, any text, any version, either `redacted` flag): every
-    method but `Redact()`, `Sign()` and `RoomID()` reaches no site; `RoomID()` reaches none unless the event is a
-    version-12 create event.  Those three need the untrusted constructor: `Redact()` / `Sign()` rely on the redaction,
-    canonical-JSON and decoding checks only it performs, and a version-12 create event built from trusted JSON keeps an
-    `event_id` member of that JSON as its ID, from which `RoomID()` derives an invalid room ID (`trusted_roomID_panics`). -/
-theorem no_panic_accessors_trusted (H : Bytes → Bytes) {ver text : Bytes} {red : Bool} {e : PDU}
+    method but `Redact()` and `Sign()` reaches no site — `RoomID()` of a version-12 create event included: the V2 / V3
+    constructors compute the event ID whatever `event_id` member the JSON carries, so the room ID derived from it is
+    `!` plus 43 URL-safe base64 characters.  `Redact()` / `Sign()` need the untrusted constructor: they rely on the
+    redaction, canonical-JSON and decoding checks only it performs.  Hypothesis: the hash returns 32 bytes. -/
+theorem no_panic_accessors_trusted (H : Bytes → Bytes) (hH : Len32 H) {ver text : Bytes} {red : Bool} {e : PDU}
     (h : parseTrusted H ver red text = .ok e) :
-    (∀ a : Acc, a.trustedSafe = true → ∀ site, run H a e ≠ .error (.panic site)) ∧
-    ((e.fmt == .v3 && isCreate e) = false → ∀ site, run H .roomID e ≠ .error (.panic site)) := by
-  obtain ⟨T, hv, row, fmt, hrow, hfmt⟩ := tinv_of_trusted h
-  refine ⟨?_, fun hc site => cls_of_ok (roomID_ok' T hc) site⟩
+    ∀ a : Acc, a.trustedSafe = true → ∀ site, run H a e ≠ .error (.panic site) := by
+  obtain ⟨row, T⟩ := tinv_of_trusted h
   intro a ha site
   cases a with
-  | eventID => exact cls_of_ok ⟨_, eventID_ok' T⟩ site
+  | eventID => exact cls_of_ok ⟨_, eventID_okT T⟩ site
   | stateKey => intro h; cases h
   | stateKeyEquals s => intro h; cases h
   | type => intro h; cases h
@@ -136,9 +136,9 @@ theorem no_panic_accessors_trusted (H : Bytes → Bytes) {ver text : Bytes} {red
   | joinRule => exact joinRule_np e site
   | historyVisibility => exact historyVisibility_np e site
   | membership => exact membership_np e site
-  | powerLevels => exact powerLevels_np hrow hv hfmt site
+  | powerLevels => exact powerLevels_np T.hrow T.hver T.hfmt site
   | version => intro h; cases h
-  | roomID => cases ha
+  | roomID => exact cls_of_ok (roomID_okT hH T) site
   | redacts => intro h; cases h
   | redacted => intro h; cases h
   | prevEventIDs => intro h; cases h
@@ -148,14 +148,14 @@ theorem no_panic_accessors_trusted (H : Bytes → Bytes) {ver text : Bytes} {red
   | unsigned => intro h; cases h
   | depth => intro h; cases h
   | json => intro h; cases h
-  | authEventIDs => exact cls_of_ok (authEventIDs_ok' T) site
-  | toHeaderedJSON => exact toHeadered_np' T site
+  | authEventIDs => exact cls_of_ok (authEventIDs_okT T) site
+  | toHeaderedJSON => exact toHeadered_npT T site
   | checkFields => exact checkFields_np T site
   | setUnsigned u => exact setUnsigned_np e u site
   | redact => cases ha
   | sign n k s => cases ha
 
-/-! ### Non-vacuity and the two preconditions the proofs forced (toy hash: 32 zero bytes, whose base64 is 43 `A`s) -/
+/-! ### Non-vacuity, and the former counter-examples after the repairs (toy hash: 32 zero bytes, whose base64 is 43 `A`s) -/
 
 def H32 : Bytes → Bytes := fun _ => List.replicate 32 0
 
@@ -170,26 +170,36 @@ example : (match parseUntrusted H32 b!"10" (exEvent "\"room_id\":\"!r:h\",") wit
   | .ok e => !e.redacted && (sweep H32 e).isNone
   | _ => false) = true := by decide +kernel
 
-/-- **`Sign()` panics on an accepted event whose `signatures` member does not decode** (here the number 5):
-    the precondition of `no_panic_sign` cannot be dropped.  Reproduced on the real code (VModel/PanicSites.md, D1). -/
-theorem sign_panics : (match parseUntrusted H32 b!"10" (exEvent "\"room_id\":\"!r:h\",\"signatures\":5,") with
-  | .ok e => !e.redacted && (panicSite H32 (.sign b!"me" b!"ed25519:1" b!"c2ln") e).isSome
-  | _ => false) = true := by decide +kernel
+/-- **The former counter-example of `no_panic_sign`** (defect D1): an accepted event whose `signatures` member does not
+    decode (the number 5; an object of a number; a string that is not base64).  `Sign()` now reaches no site on it
+    and returns an event whose `signatures` holds the new signature only. -/
+theorem sign_undecodable_ok : (["5", "{\"a\":1}", "{\"a\":{\"k\":\"!!\"}}"].all (fun sg =>
+    match parseUntrusted H32 b!"10" (exEvent ("\"room_id\":\"!r:h\",\"signatures\":" ++ sg ++ ",")) with
+    | .ok e => !e.redacted && (panicSite H32 (.sign b!"me" b!"ed25519:1" b!"c2ln") e).isNone &&
+        (match sign e b!"me" b!"ed25519:1" b!"c2ln" with
+         | .ok e' => (match GoJson.lookupExact e'.obj b!"signatures" with
+           | some v => encodeCanon v == b!"{\"me\":{\"ed25519:1\":\"c2ln\"}}"
+           | none => false)
+         | _ => false)
+    | _ => false)) = true := by decide +kernel
 
-/-- **After `Redact()`, `RoomID()` panics on an accepted event that carries a case variant of `room_id`**: the
-    struct decoding reads `Room_id` (and skips the `null` of `room_id`), the redaction keeps the LAST matching member,
-    `"room_id":null`, and the redacted event then has the empty room ID.  So the accessor theorem does not extend to
-    the event after `Redact()` without a hypothesis on case variants.  Reproduced on the real code (D3). -/
-theorem roomID_after_redact_panics :
+/-- **The former counter-example of the accessor theorem after `Redact()`** (defect D3): an event that carries a case
+    variant of `room_id` beside `"room_id":null`.  It is refused on receipt now (`checkUntrustedEventJSON`), like every
+    event with a case variant of a struct field name or a repeated member name. -/
+theorem roomID_variant_refused :
     (match parseUntrusted H32 b!"10" (exEvent "\"Room_id\":\"!r:h\",\"room_id\":null,") with
-  | .ok e => !e.redacted && (panicSite H32 .roomID e).isNone && (sweep H32 e) == some "RoomID is invalid"
+  | .error .badJSON => true
   | _ => false) = true := by decide +kernel
 
-/-- **`RoomID()` panics on a version-12 create event built from trusted JSON that carries its own `event_id`**
-    (found by the generator of area `fuzz`, op `trusted`; PanicSites.md D4). -/
-theorem trusted_roomID_panics :
+/-- **The former counter-example of the trusted-JSON theorem** (defect D4, found by the generator of area `fuzz`, op
+    `trusted`): a version-12 create event built from trusted JSON that carries its own `event_id`.  The constructor
+    computes the ID now; the room ID derived from it is valid. -/
+theorem trusted_roomID_ok :
     (match parseTrusted H32 b!"12" false ("{\"event_id\":\"y\",\"state_key\":\"\",\"type\":\"m.room.create\"}".toList.flatMap (fun c => utf8Encode c.toNat)) with
-  | .ok e => (panicSite H32 .roomID e) == some "RoomID is invalid"
+  | .ok e => (panicSite H32 .roomID e).isNone && (touched.all (fun a => (panicSite H32 a e).isNone)) &&
+      (match roomID H32 e with
+       | .ok r => r == 0x21 :: List.replicate 43 0x41
+       | _ => false)
   | _ => false) = true := by decide +kernel
 
 end Accessors
@@ -216,28 +226,32 @@ theorem resolve_refines_deprecated (sha : ID → Bytes) (ver : Bytes) (events au
     and auth events such that
     * `hev`  every event is one the constructors return (`EvOK`: `RoomID()` returns — `no_panic_accessors` —, the room ID
       has a domain unless the version derives it from the create event, the version is registered), and, for the
-      version 2 / 2.1 algorithms (`hv2`, `PreV2`),
-    * at least two state sets are supplied (the caller's side of the explicit panic at stateresolutionv2.go:246), and
-    * no auth path inside the conflicted events, and none through power-levels auth events, is longer than the number of
-      events supplied, i.e. the auth graph has no cycle there (`SRPanic.pathsShorter_of_rank`: any rank that decreases
-      along auth edges gives this).
-    The last hypothesis is forced by the code: see `resolve_cycle_panics`.  The result is the model's. -/
+      version 2 / 2.1 algorithms,
+    * `htwo` at least two state sets are supplied (the caller's side of the explicit panic at stateresolutionv2.go:246).
+    NOTHING is assumed about the auth graph: `auth_events` may be cyclic (room versions 1 and 2, whose event IDs are chosen
+    by the sender).  The three recursions over auth events (`fullControlSet`, the two mainline iterators) are sites of the
+    panic-explicit model — a recursion deeper than the number of events supplied + 2 — and are shown unreachable:
+    `fullControlSet` marks an event before descending into it, so every descent leaves fewer unmarked conflicted events
+    (`SRPanic.fcs_some`); the mainline iterators never descend into an event they are inside of, so the events they are
+    inside of are distinct events of the auth map (`SRPanic.mainlineIterP_some`, `firstMainlineP_some`; pigeonhole).
+    Before fix c5e96b7 the acyclicity of the auth graph was a hypothesis here, and a self-citing power-levels event was a
+    kernel-checked counter-example (`resolve_cycle_panics`, a fatal stack overflow on the real code): see
+    `resolve_cycle_resolves` below.  The result is the model's. -/
 theorem no_panic_resolve (sha : ID → Bytes) (ver : Bytes) (sets : List (List Event)) (auth : List Event) (rej : List ID)
     (hev : ∀ e, e ∈ sets.flatten ∨ e ∈ auth → EvOK e)
-    (hv2 : ∀ row, versionRow? ver = some row → row.stateResAlgorithm ≠ 1 → PreV2 sets auth) :
+    (htwo : ∀ row, versionRow? ver = some row → row.stateResAlgorithm ≠ 1 → 2 ≤ sets.length) :
     resolveConflictsNewP sha ver sets auth rej = .ok (resolveConflictsNew sha ver sets auth rej) ∧
     ∀ site, resolveConflictsNewP sha ver sets auth rej ≠ .error (.panic site) := by
-  have h := resolveConflictsNewP_ok (sha := sha) rej hev hv2
+  have h := resolveConflictsNewP_ok (sha := sha) rej hev htwo
   exact ⟨h, fun site hc => by rw [h] at hc; cases hc⟩
 
-/-- the same for the deprecated entry point `ResolveConflicts` (→ `ResolveStateConflicts` / `ResolveStateConflictsV2`) -/
+/-- the same for the deprecated entry point `ResolveConflicts` (→ `ResolveStateConflicts` / `ResolveStateConflictsV2`):
+    no hypothesis but `EvOK` for every event -/
 theorem no_panic_resolve_deprecated (sha : ID → Bytes) (ver : Bytes) (events auth : List Event) (rej : List ID)
-    (hev : ∀ e, e ∈ events ∨ e ∈ auth → EvOK e)
-    (hv2 : ∀ row, versionRow? ver = some row → row.stateResAlgorithm ≠ 1 →
-      PreV2Old (splitConflictedUnconflicted true [events]).1 (splitConflictedUnconflicted true [events]).2 auth) :
+    (hev : ∀ e, e ∈ events ∨ e ∈ auth → EvOK e) :
     resolveConflictsOldP sha ver events auth rej = .ok (resolveConflictsOld sha ver events auth rej) ∧
     ∀ site, resolveConflictsOldP sha ver events auth rej ≠ .error (.panic site) := by
-  have h := resolveConflictsOldP_ok (sha := sha) rej hev hv2
+  have h := resolveConflictsOldP_ok (sha := sha) (ver := ver) rej hev
   exact ⟨h, fun site hc => by rw [h] at hc; cases hc⟩
 
 /-- **`ReverseTopologicalOrdering`** (both orders) reaches no site on events the constructors return: by auth events
@@ -248,7 +262,7 @@ theorem no_panic_orderings (evs : List Event) (hev : ∀ e ∈ evs, EvOK e) :
     reverseTopoPrevEntryP evs = .ok (reverseTopoPrev evs) :=
   ⟨reverseTopoAuthEntryP_ok hev, rfl⟩
 
-/-! ### Non-vacuity, and the precondition the proof forced -/
+/-! ### Non-vacuity, and the formerly fatal inputs -/
 
 def exEv (id type : Bytes) (extra : List (Bytes × JVal)) : Event :=
   { ver := b!"2", eventID := id,
@@ -274,20 +288,37 @@ example : sameOK (resolveConflictsNewP (fun _ => []) b!"2"
       [[exEv b!"$a:h" b!"m.room.power_levels" []], [exEv b!"$b:h" b!"m.room.power_levels" []]] [] []) = true := by
   decide +kernel
 
-/-- **A conflicted power-levels event that names itself among its `auth_events` (room version 2, whose event IDs are
-    chosen by the sender) sends `fullControlSet` into an unbounded recursion**: the acyclicity hypothesis of
-    `no_panic_resolve` cannot be dropped.  On the real code this is a fatal stack overflow (not recoverable):
-    reproduced through `ResolveConflictsNew` (VModel/PanicSites.md, D2). -/
-theorem resolve_cycle_panics :
-    panicsWith (resolveConflictsNewP (fun _ => []) b!"2"
+/-- **The formerly fatal input resolves**: a conflicted power-levels event that names itself among its `auth_events`
+    (room version 2, whose event IDs are chosen by the sender) sent `fullControlSet` into an unbounded recursion — a fatal
+    stack overflow on the real code (VModel/PanicSites.md, D2; `corpus/C18/stateres.ops`).  With the auth event marked
+    before the descent (fix c5e96b7) no site fires and the answer is the model's. -/
+theorem resolve_cycle_resolves :
+    sameOK (resolveConflictsNewP (fun _ => []) b!"2"
       [[exEv b!"$a:h" b!"m.room.power_levels" [(b!"auth_events", .arr [exRef b!"$a:h"])]],
        [exEv b!"$b:h" b!"m.room.power_levels" []]] [] [])
-      "stateresolutionv2.go:139/307 fullControlSet: unbounded recursion (cyclic auth_events)" = true := by
+    (resolveConflictsNew (fun _ => []) b!"2"
+      [[exEv b!"$a:h" b!"m.room.power_levels" [(b!"auth_events", .arr [exRef b!"$a:h"])]],
+       [exEv b!"$b:h" b!"m.room.power_levels" []]] [] []) = true := by
   decide +kernel
 
--- (The same shape through a power-levels auth event that names itself reaches the site of
--- `getFirstPowerLevelMainlineEvent`; replayed on the real code, PanicSites.md D2.  `firstMainlineP` is compiled by
--- well-founded recursion and does not reduce in the kernel, so that instance is evaluated by the driver only.)
+/-- two power-levels events naming each other: the same -/
+example :
+    sameOK (resolveConflictsNewP (fun _ => []) b!"2"
+      [[exEv b!"$a:h" b!"m.room.power_levels" [(b!"auth_events", .arr [exRef b!"$b:h"])]],
+       [exEv b!"$b:h" b!"m.room.power_levels" [(b!"auth_events", .arr [exRef b!"$a:h"])]]] [] [])
+    (resolveConflictsNew (fun _ => []) b!"2"
+      [[exEv b!"$a:h" b!"m.room.power_levels" [(b!"auth_events", .arr [exRef b!"$b:h"])]],
+       [exEv b!"$b:h" b!"m.room.power_levels" [(b!"auth_events", .arr [exRef b!"$a:h"])]]] [] []) = true := by
+  decide +kernel
+
+/-- `fullControlSet` on the self-citing event, in isolation: the walk ends with the event marked -/
+example : fcs [exEv b!"$a:h" b!"m.room.power_levels" [(b!"auth_events", .arr [exRef b!"$a:h"])]] 3 []
+    (exEv b!"$a:h" b!"m.room.power_levels" [(b!"auth_events", .arr [exRef b!"$a:h"])]) = some [b!"$a:h"] := by
+  decide +kernel
+
+-- (The same shape through a power-levels auth event that names itself reached the sites of the two mainline iterators;
+-- `firstMainlineP` is compiled by well-founded recursion and does not reduce in the kernel, so those instances are
+-- evaluated by the driver only: corpus/C18/stateres.ops, witnesses W2 and W3.)
 
 end Resolution
 
